@@ -119,14 +119,25 @@ def merge_states(base_pc_len: int, c, sa: State, sb: State) -> State:
     if eb:
         pc.append(z3.Implies(z3.Not(c), z3.And(*eb) if len(eb) > 1 else eb[0]))
     arr = {}
+    # merged terms are *named* (fresh constant + defining equation) so that they stay usable inside quantifier patterns
+    def named(x, y, tag):
+        if z3.eq(x, y):
+            return x
+        k = z3.FreshConst(x.sort(), tag + '!m')
+        pc.append(k == z3.If(c, x, y))
+        return k
     for n in sa.h.arr:
-        x, y = sa.h.arr[n], sb.h.arr[n]
-        arr[n] = x if z3.eq(x, y) else z3.If(c, x, y)
-    alloc = sa.h.alloc if z3.eq(sa.h.alloc, sb.h.alloc) else z3.If(c, sa.h.alloc, sb.h.alloc)
+        arr[n] = named(sa.h.arr[n], sb.h.arr[n], n)
+    alloc = named(sa.h.alloc, sb.h.alloc, 'alloc')
     locs = {}
     for k in sa.locals:
         if k in sb.locals:
-            locs[k] = merge_sv(c, sa.locals[k], sb.locals[k])
+            m = merge_sv(c, sa.locals[k], sb.locals[k])
+            if m.kind in ('ref', 'val', 'int', 'str') and m.t is not None and z3.is_app_of(m.t, z3.Z3_OP_ITE):
+                kk = z3.FreshConst(m.t.sort(), k + '!m')
+                pc.append(kk == m.t)
+                m = SV(m.kind, kk, m.ty)
+            locs[k] = m
     gh = {}
     for k in sa.ghost:
         if k in sb.ghost:
